@@ -17,7 +17,7 @@ LEVEL = "exploration"
 RULE = ("Hypothesis rule-based state machine over set_semantic_constraints / get_semantic_constraints / get_preset_constraints "
         "/ get_semantic_robust_alphabet: valid presets and custom tables, the listed invalid classes (missing '?', malformed "
         "key strings, negative / non-integer capacity, unknown preset name, wrong argument type) and other junk (non-string "
-        "keys), caller-side mutation of every returned object and of the dict passed to the setter; after every step the table, "
+        "keys), tables passed as dict subclasses (defaultdict, Counter, OrderedDict), caller-side mutation of every returned object and of the dict passed to the setter; after every step the table, "
         "the three presets, the alphabet and two probe decodes are compared with an in-memory model. "
         "non-trivial = a history with >= 1 accepted custom table, >= 1 rejected update and >= 1 caller-side mutation; "
         "distinct = distinct history")
